@@ -309,7 +309,7 @@ def run(ctx):
                 ctx.broken.append(("correspondence: buffered run cap=%d cancel_after=%s calls=%d: %s" % (
                     o["cap"], o["cancel_after"], o["calls"], "; ".join(SEQ_CODES[c] for c in codes)), json.dumps(o)[:900]))
             ctx.cov["traces_validated_against_impl"] += len(tr) + len(sq)
-    if ctx.broken and not ctx.findings and os.path.exists(os.path.join(verif.ROOT, "harness", "bin", "c19")):
+    if ctx.broken and not ctx.findings and os.path.exists(os.path.join(verif.HBIN, "c19")):
         ok, _ = ctx.harness_run("c19", ["-out", "search.jsonl", "-seed", ctx.seed + 7, "-ntrace", 1500, "-nseq", 600,
                                         "-every", 20], timeout=1500)
         if ok:
